@@ -381,3 +381,65 @@ func init() {
 		}
 	})
 }
+
+// ------------------------------------------------------------------ C15.R8
+// Writer/reader agreement on the corruption error: the decoder reports corruption as a value of one
+// concrete type, and the predicate that restart, repair and the end-height search branch on must test for
+// exactly that dynamic type (a type assertion to it, or errors.As with a target of pointer-to-it). If the
+// predicate tests for another type (e.g. the pointer type) it is never true: a torn tail is then not
+// repaired and new records are appended behind it.
+func init() {
+	register("C15", "R8", "K5", "the corruption predicate recognises exactly the error type the decoder produces", 3, func(c *Ctx) {
+		w := c.W
+		dec := c.fn("consensus", "WALDecoder.Decode")
+		pred := c.fn("consensus", "IsDataCorruptionError")
+		if dec == nil || pred == nil {
+			return
+		}
+		// dynamic types of the errors the decoder builds itself (deep: helpers split off it)
+		produced := map[string]types.Type{}
+		for _, di := range w.deepInstrs(dec, 2) {
+			mi, ok := di.in.(*ssa.MakeInterface)
+			if !ok || !types.Identical(mi.Type(), errorType) {
+				continue
+			}
+			if n := derefNamed(mi.X.Type()); n != nil && n.Obj().Pkg() != nil && relPath(n.Obj().Pkg()) == "consensus" {
+				produced[mi.X.Type().String()] = mi.X.Type()
+			}
+		}
+		c.Check(len(produced) == 1, funcKey(dec)+" :: reports corruption as one concrete error type", w.pos(dec.Pos()), "one type", fmt.Sprintf("%d types: %v", len(produced), sortedTypeKeys(produced)))
+		var want types.Type
+		for _, t := range produced {
+			want = t
+		}
+		if want == nil {
+			return
+		}
+		// what the predicate tests for
+		n := 0
+		for _, di := range w.deepInstrs(pred, 2) {
+			switch x := di.in.(type) {
+			case *ssa.TypeAssert:
+				n++
+				c.Check(types.Identical(x.AssertedType, want), funcKey(pred)+" :: asserts the decoder's error type", w.ipos(x), want.String(), "the predicate tests for "+x.AssertedType.String()+", but the decoder produces "+want.String()+": it is never true")
+			case ssa.CallInstruction:
+				if d, ok := describeCallee(x); ok && d.Pkg == "errors" && d.Name == "As" && len(x.Common().Args) == 2 {
+					n++
+					t := underMakeInterface(x.Common().Args[1]).Type()
+					p, isPtr := t.Underlying().(*types.Pointer)
+					c.Check(isPtr && types.Identical(p.Elem(), want), funcKey(pred)+" :: errors.As target is a pointer to the decoder's error type", w.ipos(x), "*"+want.String(), "errors.As is asked for "+t.String()+", but the decoder produces "+want.String()+": it is never true")
+				}
+			}
+		}
+		c.Check(n >= 1, funcKey(pred)+" :: type test found", w.pos(pred.Pos()), "type assertion or errors.As", "the predicate no longer tests the error's type")
+	})
+}
+
+func sortedTypeKeys(m map[string]types.Type) []string {
+	var out []string
+	for k := range m {
+		out = append(out, k)
+	}
+	sort.Strings(out)
+	return out
+}
